@@ -15,7 +15,7 @@ use cw_multi_test::{App, BankSudo, ContractWrapper, Executor, IntoAddr, SudoMsg}
 use serde::{Deserialize, Serialize};
 use std::collections::{BTreeMap, BTreeSet};
 
-pub const DENOMS: [&str; 3] = ["uatom", "TOKEN", "eth"];
+pub const DENOMS: [&str; 10] = ["uatom", "TOKEN", "eth", "aaa", "btc", "dot", "ibc/x", "juno", "sol", "zzz"];
 const N_USERS: usize = 4;
 const N_FRESH: usize = 5;
 
@@ -228,36 +228,45 @@ fn gen_amount(g: &mut Gen, bal: u128) -> u128 {
     v.min(CAP)
 }
 
+/// mostly one of the three common denominations, sometimes any of the ten
+fn gen_denom(g: &mut Gen) -> usize {
+    if g.chance(1, 5) {
+        g.below(DENOMS.len())
+    } else {
+        g.below(3)
+    }
+}
+
 fn gen_coins(g: &mut Gen, led: &Ledger, from: Option<Acct>) -> Vec<C> {
     let bal = |d: usize| from.map(|a| led.get(a, d)).unwrap_or(1000);
     match g.weighted(&[10, 4, 2, 2, 1]) {
         0 => {
-            let d = g.below(3);
+            let d = gen_denom(g);
             vec![C(d, gen_amount(g, bal(d)))]
         }
         1 => {
             // repeated denomination: sum exactly at / just above the balance
-            let d = g.below(3);
+            let d = gen_denom(g);
             let b = bal(d);
             let a = b / 2;
             let rest = b - a;
             let over = if g.bool() { 1 } else { 0 };
             let mut v = vec![C(d, a + over), C(d, rest)];
             if g.chance(1, 3) {
-                v.push(C(g.below(3), gen_amount(g, 0)));
+                v.push(C(gen_denom(g), gen_amount(g, 0)));
             }
             v
         }
         2 => {
             let n = g.below(5);
-            (0..n).map(|_| { let d = g.below(3); C(d, gen_amount(g, bal(d))) }).collect()
+            (0..n).map(|_| { let d = gen_denom(g); C(d, gen_amount(g, bal(d))) }).collect()
         }
         3 => {
             // zeros mixed with positive / all zero
             let n = 1 + g.below(3);
-            let mut v: Vec<C> = (0..n).map(|_| C(g.below(3), 0)).collect();
+            let mut v: Vec<C> = (0..n).map(|_| C(gen_denom(g), 0)).collect();
             if g.bool() {
-                let d = g.below(3);
+                let d = gen_denom(g);
                 let at = g.below(v.len() + 1);
                 v.insert(at, C(d, gen_amount(g, bal(d))));
             }
@@ -282,7 +291,12 @@ fn gen_op(g: &mut Gen, led: &Ledger) -> Op {
         }
         1 => {
             let a = any(g);
-            Op::Mint(a, gen_coins(g, led, None))
+            if g.chance(1, 5) {
+                // every denomination at once, listed in descending order
+                Op::Mint(a, (0..DENOMS.len()).rev().map(|d| C(d, 1 + d as u128)).collect())
+            } else {
+                Op::Mint(a, gen_coins(g, led, None))
+            }
         }
         2 => {
             let a = user(g);
@@ -326,7 +340,7 @@ fn gen_op(g: &mut Gen, led: &Ledger) -> Op {
 // ---------------------------------------------------------------- execution
 
 fn to_coins(cs: &[C]) -> Vec<Coin> {
-    cs.iter().map(|c| coin(c.1, DENOMS[c.0 % 3])).collect()
+    cs.iter().map(|c| coin(c.1, DENOMS[c.0 % DENOMS.len()])).collect()
 }
 
 struct World {
@@ -459,7 +473,7 @@ impl Check for BankCheck {
         Spec {
             id: "C09",
             level: "exploration",
-            rule: "generated: histories of 1-40 bank operations (init_balance, sudo mint, send, burn, send_tokens, and contract-initiated sends/burns with attached funds) over 4 users, 5 never-seen recipients and a contract, 3 denominations, coin lists of 0-5 coins with repeated denominations, zeros mixed in, all-zero and empty lists, amounts relative to the sender's balance (0, 1, bal-1, bal, bal+1, duplicate split summing to bal or bal+1); after every op every Balance/AllBalances/Supply answer is compared with a reference ledger and failed ops must leave root storage byte-identical; the forwarder contract asks the same queries through its own querier in the middle of the transaction (after the attached funds arrived, and again after its own sends/burns) and must get the ledger of that moment. Non-trivial: the history contains a transfer with a repeated denomination, a self-transfer and a rejected overdraft, with >=2 denominations live; distinct = distinct serialised history",
+            rule: "generated: histories of 1-40 bank operations (init_balance, sudo mint, send, burn, send_tokens, and contract-initiated sends/burns with attached funds) over 4 users, 5 never-seen recipients and a contract, 10 denominations (three common ones; sometimes all ten minted at once, in descending order), coin lists of 0-5 coins with repeated denominations, zeros mixed in, all-zero and empty lists, amounts relative to the sender's balance (0, 1, bal-1, bal, bal+1, duplicate split summing to bal or bal+1); after every op every Balance/AllBalances/Supply answer is compared with a reference ledger and failed ops must leave root storage byte-identical; the forwarder contract asks the same queries through its own querier in the middle of the transaction (after the attached funds arrived, and again after its own sends/burns) and must get the ledger of that moment. Non-trivial: the history contains a transfer with a repeated denomination, a self-transfer and a rejected overdraft, with >=2 denominations live; distinct = distinct serialised history",
             assumptions: vec![
                 "amounts capped at 2^90 per coin and <= 40 operations, so no balance or supply reaches 2^128 (precondition of the statement)",
                 "recipients are valid bech32 addresses so that queries can observe them",
